@@ -21,6 +21,30 @@ type SearchCase struct {
 	Queries  []QuerySpec `json:"queries"`
 	MetaMode string      `json:"metamode,omitempty"` // "", "ignore-prefilter", "desc-blocks", "reverse-files", "rotate-blocks"
 	QConc    int         `json:"qconc,omitempty"`    // MaxQueryConcurrency override for the querying engine
+	// QFaults: one-shot store failures during individual queries (transient
+	// faults: the next call of that kind succeeds again)
+	QFaults []QFault `json:"qfaults,omitempty"`
+}
+
+type QFault struct {
+	Q    int    `json:"q"`    // query index
+	Kind string `json:"kind"` // OpenFile, Read, Seek
+	N    int    `json:"n"`    // ordinal among the query's calls of that kind
+}
+
+// genSearchCaseFaulted: the same cases with a transient store failure inside
+// about half of the queries.
+func genSearchCaseFaulted(o HistOpts, nq int, withPrefilter bool) *rapid.Generator[SearchCase] {
+	base := genSearchCase(o, nq, withPrefilter)
+	return rapid.Custom(func(t *rapid.T) SearchCase {
+		c := base.Draw(t, "base")
+		for qi := range c.Queries {
+			if chance(t, "qfault", 55) {
+				c.QFaults = append(c.QFaults, QFault{Q: qi, Kind: pick(t, "qfkind", []string{"OpenFile", "OpenFile", "Read", "Seek"}), N: rapid.IntRange(0, 5).Draw(t, "qfn")})
+			}
+		}
+		return c
+	})
 }
 
 var metaModes = []string{"", "", "", "ignore-prefilter", "desc-blocks", "reverse-files", "rotate-blocks"}
@@ -65,6 +89,7 @@ type QueryRun struct {
 	Stats    bs.QueryStats
 	Calls    []CallRec   // DataStore/MetaStore calls made during the query
 	Handles  []HandleRec // read handles opened during the query
+	FaultPlanned bool    // a transient store failure was scheduled for this query
 }
 
 type SearchRun struct {
@@ -100,11 +125,25 @@ func collectResults(res *bs.Results, limit time.Duration) ([]map[string]any, err
 
 // runQueries executes the queries one after another on eng (whose stores are
 // wrapped by tr) and records rows, terminal error, stats and the call log.
-func runQueries(eng *bs.BloomSearchEngine, tr *Trace, queries []QuerySpec) ([]QueryRun, *Violation) {
+func runQueries(eng *bs.BloomSearchEngine, tr *Trace, queries []QuerySpec, faults ...QFault) ([]QueryRun, *Violation) {
 	var runs []QueryRun
-	for _, qs := range queries {
+	defer func() { tr.Before = nil }()
+	for qi, qs := range queries {
 		tr.ResetLog()
 		run := QueryRun{Spec: qs}
+		tr.Before = nil
+		for _, f := range faults {
+			if f.Q == qi {
+				f := f
+				run.FaultPlanned = true
+				tr.Before = func(ci *CallInfo) error {
+					if ci.Kind == f.Kind && ci.KindSeq == f.N {
+						return fmt.Errorf("transient %s failure: %w", f.Kind, errInjected)
+					}
+					return nil
+				}
+			}
+		}
 		res, qerr := eng.Query(context.Background(), qs.Query())
 		if qerr != nil {
 			run.QueryErr = qerr
@@ -177,7 +216,7 @@ func execSearchCase(c SearchCase) (*SearchRun, *Violation) {
 		w.Close()
 		return nil, violf("engine construction failed: %v", err)
 	}
-	runs, v := runQueries(eng, tr, c.Queries)
+	runs, v := runQueries(eng, tr, c.Queries, c.QFaults...)
 	if v != nil {
 		w.Close()
 		return nil, v
